@@ -105,6 +105,18 @@ static void sink(const unsigned char *s, size_t n, void *arg) {
             if (!lascii && !ref_utf8_valid(L, ln) && r6 == 0) viol("rfc5322:malformed-utf8-accepted", v, 3, 0, L, ln, "variant %d: is_6531_local accepts a local part that is not well-formed UTF-8", v);
         }
     }
+    /* every build: RFC 6531/6532 have ONE class of non-ASCII characters (UTF8-non-ascii), so the local-part verdict of mode 6531 may not depend on
+     * WHICH well-formed non-ASCII characters are used: replace each by U+0416 and the decision stays (holds whatever an option does to the
+     * grammar around them; length limits are not the local validator's business) */
+    if (!lascii && ln > 0 && ln < 4000 && ref_utf8_valid(L, ln)) {
+        char lb[4001], cb[4001]; memcpy(lb, L, ln); lb[ln] = 0; size_t cl = 0;
+        for (size_t i = 0; i < ln; ) { if (L[i] < 0x80) { cb[cl++] = (char)L[i++]; continue; } int w = L[i] >= 0xf0 ? 4 : L[i] >= 0xe0 ? 3 : 2; cb[cl++] = (char)0xd0; cb[cl++] = (char)0x96; i += (size_t)w; }
+        cb[cl] = 0;
+        if (cl != ln || memcmp(lb, cb, ln)) for (int v = 0; v < 8; v++) {
+            int r1 = VAR[v].local[3](lb, lb + ln), r2 = VAR[v].local[3](cb, cb + cl); MC_ADD(C_EVAL, 2);
+            if ((r1 == 0) != (r2 == 0)) viol("uniform:verdict-depends-on-which-non-ascii-character", v, 3, 0, L, ln, "variant %d: is_6531_local rc %d, but rc %d with every non-ASCII character replaced by U+0416", v, r1, r2);
+        }
+    }
     /* variant 0 == what the statement calls the default build: the reference with no option (decisions only, tld off) is C01-C04's job */
     if (at > 0 && (any20 || has_us || lctlws)) MC_ADD(C_NONTRIV, 1);
 }
@@ -126,7 +138,7 @@ int main(int argc, char **argv) {
     C_ADDR = mc_counter("addresses"); C_DELTA20 = mc_counter("rfc20_delta_cases"); C_DELTAUS = mc_counter("underscore_delta_cases"); C_DELTA5322 = mc_counter("rfc5322_delta_cases"); C_SAME = mc_counter("must_be_identical_comparisons");
     if (corpus_load()) return 2;
     if (mc_replay) return do_replay();
-    static const int PH[] = { CP_LOCAL, CP_EMAIL, CP_DOMAIN, CP_CROSS, CP_BYTES, CP_TLD, CP_LITERAL, CP_LABELLEN, CP_ALTDOT, CP_LONGIDN, CP_MAXLIT, CP_SCALARS };
+    static const int PH[] = { CP_LOCAL, CP_EMAIL, CP_DOMAIN, CP_CROSS, CP_BYTES, CP_TLD, CP_LITERAL, CP_LABELLEN, CP_ALTDOT, CP_LONGIDN, CP_MAXLIT, CP_LPXDOM, CP_WHOLEDOM, CP_SCALARS };
     for (unsigned i = 0; i < sizeof PH / sizeof PH[0]; i++) { CURPH = PH[i]; char nm[64]; snprintf(nm, sizeof nm, "%.40s (N=%d)", corpus_name(CURPH), corpus_N(CURPH)); mc_parallel(nm, corpus_shards(CURPH), phase_shard, NULL); }
     return mc_finish();
 }
